@@ -75,23 +75,31 @@ Qed.
 Lemma kview_comp_push kd c h w : kview (comp_push kd c h w) = kview w.
 Proof. unfold comp_push. destruct (alookup c (comp_tbl w)) as [[[i m] r]|]; destruct kd; reflexivity. Qed.
 
+Lemma kview_dsp_alive e w : kview (dsp_alive e w) = kview w. Proof. reflexivity. Qed.
+Lemma kview_dsp_comps e w : kview (dsp_comps e w) = kview w.
+Proof. unfold dsp_comps. etransitivity; [|apply (kview_push_removed_all (comps_of e (comps w)) e w)]. reflexivity. Qed.
+Lemma kview_dsp_storage e w : kview (dsp_storage e w) = kview w.
+Proof.
+  unfold dsp_storage. destruct (alookup e (storage w)) as [[|]|]; try reflexivity.
+  etransitivity; [|apply (kview_drop_callback e w)]. reflexivity.
+Qed.
+Lemma kview_dsp_ereactors e w : kview (dsp_ereactors e w) = kview w.
+Proof.
+  unfold dsp_ereactors. destruct (alookup e (ereactors w)) as [l|]; [|reflexivity].
+  etransitivity; [|apply (kview_handles_drop (map snd l) w)]. reflexivity.
+Qed.
+Lemma kview_dsp_tracker e w : kview (dsp_tracker e w) = kview w.
+Proof. unfold dsp_tracker. destruct (memN e (dtrackers w)); reflexivity. Qed.
+Lemma kview_dsp_data e w : kview (dsp_data e w) = kview w.
+Proof.
+  unfold dsp_data. destruct (alookup e (dataents w)) as [d|]; [|reflexivity].
+  etransitivity; [|apply (kview_drop_ddata d w)]. reflexivity.
+Qed.
+Lemma kview_dsp_xlocals e w : kview (dsp_xlocals e w) = kview w. Proof. reflexivity. Qed.
 Lemma kview_despawn e w : kview (despawn e w) = kview w.
 Proof.
   unfold despawn. destruct (negb (is_alive e w)); [reflexivity|].
-  unfold dsp_xlocals, dsp_data, dsp_tracker, dsp_ereactors, dsp_storage, dsp_comps.
-  set (w1 := push_removed_all (comps_of e (comps (dsp_alive e w))) e (dsp_alive e w) <| comps ::= comps_without e |>).
-  assert (H1 : kview w1 = kview w) by (subst w1; change (kview (push_removed_all (comps_of e (comps (dsp_alive e w))) e (dsp_alive e w)) = kview w); rewrite kview_push_removed_all; reflexivity).
-  set (w1' := match alookup e (storage w1) with Some true => drop_callback e w1 | _ => w1 end).
-  assert (H1' : kview w1' = kview w) by (subst w1'; destruct (alookup e (storage w1)) as [[|]|]; try exact H1; rewrite kview_drop_callback; exact H1).
-  set (w2 := w1' <| storage ::= aremove e |>).
-  set (w3 := match alookup e (ereactors w2) with Some l => handles_drop (map snd l) w2 | None => w2 end).
-  assert (H3 : kview w3 = kview w) by (subst w3; destruct (alookup e (ereactors w2)); [rewrite kview_handles_drop|]; exact H1').
-  set (w4 := w3 <| ereactors ::= aremove e |>).
-  set (w5 := if memN e (dtrackers w4) then w4 <| dtrackers := removeN e (dtrackers w4) |> <| despawn_chan ::= fun c => c ++ [e] |> else w4).
-  assert (H5 : kview w5 = kview w) by (subst w5; destruct (memN e (dtrackers w4)); exact H3).
-  set (w6 := match alookup e (dataents w5) with Some d => drop_ddata d w5 | None => w5 end).
-  assert (H6 : kview w6 = kview w) by (subst w6; destruct (alookup e (dataents w5)); [rewrite kview_drop_ddata|]; exact H5).
-  exact H6.
+  rewrite kview_dsp_xlocals, kview_dsp_data, kview_dsp_tracker, kview_dsp_ereactors, kview_dsp_storage, kview_dsp_comps. apply kview_dsp_alive.
 Qed.
 Lemma kview_try_cleanup d w : kview (try_cleanup_data_entity d w) = kview w.
 Proof.
@@ -186,19 +194,21 @@ Proof.
 Qed.
 
 (* no primitive command and no action ever queues a CCleanup: only the exclusive-system path of the runner does *)
+Lemma nocl_map_react {A} (f : A -> reaction) l : forallb (fun c => negb (is_cleanup_cmd c)) (map (fun a => CReact (f a)) l) = true.
+Proof. induction l; cbn; auto. Qed.
+
 Lemma prim_no_cleanup c w : forallb (fun c => negb (is_cleanup_cmd c)) (snd (apply_prim P c w)) = true.
 Proof.
-  destruct c; cbn [apply_prim]; try reflexivity;
-  repeat match goal with
-         | |- context [if ?b then _ else _] => destruct b
-         | |- context [match alookup ?a ?c with _ => _ end] => destruct (alookup a c) as [[? ?]|]
-         | |- context [match alookup2 ?a ?b ?c with _ => _ end] => destruct (alookup2 a b c)
-         end; try reflexivity.
-  - destruct (tbl_get ty (bc_tbl w)) as [|h hs]; [reflexivity|]. cbn [snd forallb is_cleanup_cmd negb andb]. induction hs; cbn; auto.
-  - destruct (entity_targets e (REvent ty) w ++ map handle_sys (tbl_get ty (any_tbl w))) as [|t ts]; [reflexivity|]. cbn [snd forallb is_cleanup_cmd negb andb]. induction ts; cbn; auto.
-  - cbn [snd]. induction (map handle_sys (tbl_get r (res_tbl w))); cbn; auto.
-  - cbn [snd]. induction (entity_targets e (RIns c) w ++ map handle_sys (comp_get KIns c w)); cbn; auto.
-  - cbn [snd]. induction (entity_targets e (RMut c) w ++ map handle_sys (comp_get KMut c w)); cbn; auto.
+  destruct c; cbn [apply_prim];
+    try reflexivity;
+    try (apply poll_no_cleanup);
+    try (cbn [snd]; apply (nocl_map_react (fun t => RcResource t)));
+    try (cbn [snd]; apply (nocl_map_react (fun t => RcEntity e (RMut c) t))).
+  - destruct (tbl_get ty (bc_tbl w)) as [|h hs]; [reflexivity|]. cbn [snd forallb is_cleanup_cmd negb andb].
+    apply (nocl_map_react (fun h0 => RcBroadcast (next_ent w) (handle_sys h0)) (h :: hs)).
+  - destruct (entity_targets e (REvent ty) w ++ map handle_sys (tbl_get ty (any_tbl w))) as [|t ts]; [reflexivity|]. cbn [snd forallb is_cleanup_cmd negb andb].
+    apply (nocl_map_react (fun t0 => RcEntityEvent e (next_ent w) t0) (t :: ts)).
+  - match goal with |- context [if ?b then _ else _] => destruct b end; [|reflexivity]. cbn [snd]. apply (nocl_map_react (fun t => RcEntity e (RIns c) t)).
   - assert (Hg : forall h w0, forallb (fun c => negb (is_cleanup_cmd c)) (snd (reg_triggers_cmds h b w0)) = true).
     { intros h. induction b as [|t b IH]; intros w0; cbn [reg_triggers_cmds]; [reflexivity|].
       destruct (reg_trigger_cmds h t w0) as [w1 c1] eqn:E1. destruct (reg_triggers_cmds h b w1) as [w2 c2] eqn:E2. cbn [snd].
@@ -207,7 +217,35 @@ Proof.
     destruct m; [|destruct (sig_new s w) as [g w1]|destruct (sig_new s w) as [g w1]];
       match goal with |- context [reg_triggers_cmds ?h b ?w0] => specialize (Hg h w0); destruct (reg_triggers_cmds h b w0) end; exact Hg.
   - destruct tk. reflexivity.
-  - cbn [snd]. cbn. induction (unique_entities [] b); cbn; auto.
-  - apply poll_no_cleanup.
+  - destruct (alookup x (p_xr P)) as [[s shape]|]; [destruct (is_alive e w)|]; reflexivity.
+  - destruct (alookup x (p_xr P)) as [[s shape]|]; [|reflexivity]. cbn [snd forallb is_cleanup_cmd negb andb]. induction (unique_entities [] b); cbn; auto.
 Qed.
+
+Definition nocl (cs : list cmd) : Prop := forallb (fun c => negb (is_cleanup_cmd c)) cs = true.
+Lemma nocl_app a b : nocl a -> nocl b -> nocl (a ++ b).
+Proof. unfold nocl. intros Ha Hb. rewrite forallb_app, Ha, Hb. reflexivity. Qed.
+Lemma nocl_cons c cs : nocl (c :: cs) -> is_cleanup_cmd c = false /\ nocl cs.
+Proof. unfold nocl. cbn. intros H. apply andb_true_iff in H. destruct H as [H1 H2]. split; [apply negb_true_iff; exact H1|exact H2]. Qed.
+
+Lemma act_no_cleanup o a w : nocl (snd (act P o a w)).
+Proof.
+  unfold nocl. destruct a; cbn [act]; try reflexivity.
+  all: try (destruct (is_alive _ w); reflexivity).
+  all: try (destruct (is_alive _ (emit _ w)); [destruct (alookup2 _ _ _); [try destruct (N.eqb _ _)|]|]; reflexivity).
+  all: try (destruct (N.eqb _ _); reflexivity).
+  all: try (destruct (memN _ (bound w)); reflexivity).
+  all: try (destruct (alookup _ _) as [?|]; reflexivity).
+  all: try (destruct m; reflexivity).
+Qed.
+Lemma acts_no_cleanup l : forall mk idx w, nocl (snd (acts P mk idx l w)).
+Proof.
+  induction l as [|a l IH]; intros mk idx w; cbn [acts]; [reflexivity|].
+  pose proof (act_no_cleanup (mk idx) a w) as H1. destruct (act P (mk idx) a w) as [w1 c1].
+  specialize (IH mk (idx + 1) w1). destruct (acts P mk (idx + 1) l w1) as [w2 c2]. cbn [snd] in *. apply nocl_app; assumption.
+Qed.
+Lemma prim_nocl c w : nocl (snd (apply_prim P c w)).
+Proof. apply prim_no_cleanup. Qed.
+Lemma poll_nocl w : nocl (snd (poll w)).
+Proof. apply poll_no_cleanup. Qed.
+
 End KSteps.
